@@ -1,7 +1,7 @@
 //! Directed seeds ("generator output" in the property's corpus definition): arity and error
 //! edges that mutation from well-formed tests reaches slowly. Deterministic list.
 
-use crate::gen::{is_valid_request, TRAITS};
+use crate::gen::{is_valid_request, KEY_EXPRS, TRAITS};
 use crate::req::{lex, Mode, Request};
 
 const SHAPES: &[&str] = &[
@@ -170,6 +170,17 @@ const EXTRA: &[(&str, &str, &str)] = &[
     ("attr", "AddAssign", "impl Add for dyn A + B { type Output = u8; }"),
     ("attr", "Add", "impl AddAssign<dyn A + B> for X { }"),
     ("attr", "Add", "impl Add for X {}"),
+    ("attr", "Add", "impl Add for W<Self> { type Output = Self; fn add(self, rhs: Self) -> Self { self } }"),
+    ("attr", "AddAssign", "impl Add for W<Self> { type Output = Self; fn add(self, rhs: Self) -> Self { self } }"),
+    ("attr", "Add", "impl Add<Self> for (Self, u8) { type Output = Self; }"),
+    ("attr", "Add", "impl Add<u8> for [Self; 2] { type Output = Self; }"),
+    ("attr", "Add", "impl<T: Tr<Self>> Add<T> for Box<Self> where Self: Sized { type Output = Option<Self>; }"),
+    ("attr", "Sub", "impl SubAssign<&Self> for Box<Self> { fn sub_assign(&mut self, rhs: &Self) {} }"),
+    ("attr", "Bogus", "impl Add for W<Self> { type Output = Self; }"),
+    ("attr", "Add", "impl Add for Self { type Output = Self; }"),
+    ("attr", "Add", "impl Add<W<Self>> for X { type Output = W<W<Self>>; }"),
+    ("attr", "Add", "struct X<T: Tr<Self>>(T) where Self: Sized, W<Self>: Tr;"),
+    ("attr", "Clone, Default", "struct X<T: Tr<Self>>(Box<Self>, T) where Self: Sized;"),
     ("attr", "Add", "impl X {}"),
     ("attr", "Add", "impl !Add for X {}"),
     ("attr", "Add", "impl Sub for X { type Output = X; }"),
@@ -258,6 +269,25 @@ pub fn directed() -> Vec<Request> {
             mode: if *mode == "attr" { Mode::Attr } else { Mode::Derive },
             attr: attr.to_string(),
             item: item.to_string(),
+        });
+    }
+    // every key/by expression of the dictionary under every comparison helper
+    for cmp in ["ord", "partial_ord", "eq", "partial_eq", "hash"] {
+        for arg in ["key", "by"] {
+            for e in KEY_EXPRS {
+                out.push(Request {
+                    mode: Mode::Attr,
+                    attr: "Ord, PartialOrd, Eq, PartialEq, Hash".into(),
+                    item: format!("struct X(#[{cmp}({arg} = {e})] (u8, u8));"),
+                });
+            }
+        }
+    }
+    for e in KEY_EXPRS {
+        out.push(Request {
+            mode: Mode::Derive,
+            attr: String::new(),
+            item: format!("#[derive_ex(PartialOrd, PartialEq)] enum X {{ A {{ #[partial_ord(key = {e})] r#type: (u8, u8) }}, B }}"),
         });
     }
     // normalise to the printed token form and drop what is not a valid request
